@@ -378,8 +378,11 @@ def _p13(ctx):
             c1 = bool(reads) and bool(untag) and all(x.dom(untag, r) for r in reads)
             c2 = all(not (x.reach_from(e_, blocked=set(reads)) & (set(g.exits) | set(x.ext_calls(r'Iterator::next$|::next$')))) for e_ in untag)
             # the value read is dropped
-            c3 = all(any(r in x.calls_in(g.ev_place(g.nodes[d].inst, g.nodes[d].term['pl'])) for d in drops_) or g.call_name(r).endswith('drop_in_place') for r in reads)
+            mdrops = [n_ for n_ in x.ext_calls(r'mem::drop$')]
+            c3 = all(any(r in x.calls_in(g.ev_place(g.nodes[d].inst, g.nodes[d].term['pl'])) for d in drops_) or g.call_name(r).endswith('drop_in_place')
+                     or any(r in x.calls_in(g.call_args(m_)[0]) for m_ in mdrops) for r in reads)
             rng = any(any(s[0] == 'fld' and s[2] == 'MultiQueue.capacity' for s in g.deep_walk(a)) for a in x.loop_bounds())
+            ops = [o_ for o_ in ops if not (g.call_name(o_).endswith('mem::drop') and any(r in x.calls_in(g.call_args(o_)[0]) for r in reads))]
             ok = c1 and c2 and c3 and rng and len(ops) == len(reads)
             ctx.add('P13c', 'T-GUARD', dq, ok, 'clone-out teardown drops exactly the untagged (ever written) slots of 0..capacity' if ok else
                     'clone-out teardown: read only untagged=%s, every untagged slot read=%s, value dropped=%s, over 0..capacity=%s, no other payload op=%s' % (c1, c2, c3, rng, len(ops) == len(reads)),
